@@ -28,6 +28,10 @@ pub struct In {
     pub worst: bool,
     pub lazer: Option<bool>,
     pub cl: bool,
+    /// osu! only: the Classic mod's `no_slider_head_accuracy` setting (None = the mod's default, which is "true")
+    pub cl_setting: Option<bool>,
+    /// hand the lazer flag to `Performance::lazer` instead of `Difficulty::lazer`
+    pub lazer_via_setter: bool,
     pub passed: Option<u32>,
 }
 
@@ -137,6 +141,16 @@ pub fn budget(attrs: &DifficultyAttributes) -> u32 {
 }
 
 pub fn gen_in(rng: &mut Rng, mode: GameMode, n: u32) -> In {
+    let mut i = gen_in_raw(rng, mode, n);
+    // a stable score (lazer = false) carrying a lazer Classic mod with an explicit setting is not a combination the game
+    // produces: the explicit setting is only generated for lazer scores
+    if i.lazer == Some(false) {
+        i.cl_setting = None;
+    }
+    i
+}
+
+fn gen_in_raw(rng: &mut Rng, mode: GameMode, n: u32) -> In {
     let k = n_results(mode);
     let val = |rng: &mut Rng| -> u32 {
         match rng.below(6) {
@@ -166,6 +180,8 @@ pub fn gen_in(rng: &mut Rng, mode: GameMode, n: u32) -> In {
         worst: rng.chance(0.4),
         lazer: *rng.pick(&[None, Some(true), Some(false)]),
         cl: rng.chance(0.3),
+        cl_setting: if mode == GameMode::Osu { *rng.pick(&[None, None, Some(true), Some(false)]) } else { None },
+        lazer_via_setter: rng.chance(0.5),
         passed: if rng.chance(0.4) {
             Some(match rng.below(4) {
                 0 => 0,
@@ -193,20 +209,23 @@ pub fn build_on<'a>(start: Performance<'a>, mode: GameMode, i: &In) -> Performan
                 bits: 0,
                 repr: Repr::Lazer,
                 extra: LazerExtra {
-                    cl: Some(None),
+                    cl: Some(if mode == GameMode::Osu { i.cl_setting } else { None }),
                     ..LazerExtra::default()
                 },
             }
             .to_gamemods(mode),
         );
     }
-    if let Some(l) = i.lazer {
+    if let (Some(l), false) = (i.lazer, i.lazer_via_setter) {
         d = d.lazer(l);
     }
     if let Some(p) = i.passed {
         d = d.passed_objects(p);
     }
     let mut p = start.difficulty(d);
+    if let (Some(l), true) = (i.lazer, i.lazer_via_setter) {
+        p = p.lazer(l);
+    }
     if let Some(a) = i.acc {
         p = p.accuracy(a);
     }
@@ -255,9 +274,14 @@ pub fn results_of(mode: GameMode, s: &ScoreState) -> Vec<u32> {
 pub fn classic(mode: GameMode, i: &In) -> bool {
     let lazer = i.lazer.unwrap_or(true);
     match mode {
-        GameMode::Mania | GameMode::Osu => !lazer || i.cl,
+        GameMode::Mania | GameMode::Osu => !lazer || cl_effective(mode, i),
         _ => false,
     }
+}
+
+/// Does the Classic mod of this input switch slider-head accuracy off (osu!: only unless its setting says otherwise).
+pub fn cl_effective(mode: GameMode, i: &In) -> bool {
+    i.cl && (mode != GameMode::Osu || i.cl_setting.unwrap_or(true))
 }
 
 /// Evaluate clauses S2-S4 on a generated state. Returns (clause, message) of the first failure.
@@ -594,6 +618,8 @@ fn exhaustive_case(ctx: &mut Ctx, mode: GameMode, attrs: &DifficultyAttributes) 
                                     worst,
                                     lazer,
                                     cl,
+                                    cl_setting: None,
+                                    lazer_via_setter: count % 2 == 1,
                                     passed: p,
                                 };
                                 evaluate(ctx, mode, attrs, &i);
